@@ -91,11 +91,22 @@ def fresh_key(rng, fmt, used):
             return k
 
 
+def backslash_tail(rng, w):
+    """a .properties value whose first line ends in 1..6 backslashes: an even number ends
+    the value there (escaped backslashes), an odd number continues it on the next line"""
+    k = rng.randint(1, 6)
+    if k % 2 == 0:
+        return w + "\\" * k
+    return w + "\\" * k + "\n" + rng.choice(["    ", "", " "]) + words(rng, 1, 2)
+
+
 def ref_value(rng, fmt):
     """-> (text, spec) where spec describes what a good localization must keep"""
     w = words(rng)
     r = rng.random()
     if fmt == "properties":
+        if rng.random() < 0.12:
+            return backslash_tail(rng, w), None
         if r < 0.3:
             return w + " %S", ("printf", ["%S"])
         if r < 0.45:
@@ -158,6 +169,8 @@ def l10n_good_value(rng, fmt, ref):
         if len(parts) > 1 and rng.random() < 0.5:
             parts.reverse()
         return parts[0] + " " + w + "".join(" " + p for p in parts[1:])
+    if fmt == "properties" and rng.random() < 0.12:
+        return backslash_tail(rng, w)
     if fmt == "properties" and rng.random() < 0.15:
         return w + " \\\n  " + words(rng, 1, 2)
     if fmt == "dtd" and rng.random() < 0.2:
